@@ -133,6 +133,10 @@ impl Buf {
     pub fn hyp(&mut self, name: &str, class: &str, ok: bool, example: Value) {
         self.lines.push(json!({"t":"hyp1","name":name,"class":class,"ok":ok,"example":example}));
     }
+    /// `checks` evaluations of one hypothesis at once, `failures` of them failing (`example`: the first failing one).
+    pub fn hyp_n(&mut self, name: &str, class: &str, checks: usize, failures: usize, example: Value) {
+        self.lines.push(json!({"t":"hyp1","name":name,"class":class,"ok":failures == 0,"n":checks,"fails":failures,"example":example}));
+    }
 }
 pub struct Out {
     w: std::io::BufWriter<std::fs::File>,
@@ -174,9 +178,9 @@ impl Out {
                 }
                 "hyp1" => {
                     let e = self.hyps.entry(l["name"].as_str().unwrap_or("").to_string()).or_insert((l["class"].as_str().unwrap_or("").to_string(), 0, 0, Value::Null));
-                    e.1 += 1;
+                    e.1 += l["n"].as_u64().unwrap_or(1) as usize;
                     if !l["ok"].as_bool().unwrap_or(false) {
-                        e.2 += 1;
+                        e.2 += l["fails"].as_u64().unwrap_or(1) as usize;
                         if e.3.is_null() {
                             e.3 = l["example"].clone();
                         }
